@@ -65,7 +65,11 @@ TUVersions == /\ IsEv("uversions") /\ Ev.res = "ok"
               /\ txnActive => MUserVersions(ToSet(Ev.users), Ev.flag) = PostUserVersions(ToSet(Ev.users), Ev.flag)
               /\ Same
 
-TNext == (TReset \/ TSet \/ TBegin \/ TCommit \/ TRollback \/ TTombstone \/ TRejectNext \/ TNoop \/ TFlush \/ TExtSet
+(* the transaction flag as the manager reports it: a state-based exploration visits a state once, so the flag - the one *)
+(* piece of state that data reads do not show - is observed with every sweep                                            *)
+TTxnState == IsEv("txn_state") /\ Ev.active = txnActive /\ Same
+
+TNext == (TTxnState \/ TReset \/ TSet \/ TBegin \/ TCommit \/ TRollback \/ TTombstone \/ TRejectNext \/ TNoop \/ TFlush \/ TExtSet
           \/ TGet \/ TDirect \/ TBatchGet \/ TUData \/ TUState \/ TUVersions) 
 
 TraceInv == TypeOK
